@@ -712,7 +712,7 @@ fn crafted_gravsoft(r: &mut Rng) -> (String, &'static str) {
     }
 }
 
-fn crafted_ntv2(r: &mut Rng) -> (Vec<u8>, &'static str) {
+fn crafted_ntv2(r: &mut Rng) -> (Vec<u8>, &'static str, (f64, f64, f64, f64)) {
     let subs = random_tree(r);
     let mut raw: Vec<RawSub> = subs.iter().map(raw_of).collect();
     let be = r.chance(1, 2);
@@ -843,7 +843,9 @@ fn crafted_ntv2(r: &mut Rng) -> (Vec<u8>, &'static str) {
             "unknown-parent"
         }
     };
-    (ntv2_encode_raw(&raw, be, num_file, gs_type), class)
+    // (the queries go where the damaged sub-grid was meant to be)
+    let at = &subs[i].g;
+    (ntv2_encode_raw(&raw, be, num_file, gs_type), class, (at.lat_s, at.lat_n, at.lon_w, at.lon_e))
 }
 
 pub fn generate_c15(g: &mut Gen, thorough: bool) {
@@ -971,8 +973,9 @@ pub fn generate_c15(g: &mut Gen, thorough: bool) {
         push_damaged(g, "gravsoftb", text.as_bytes(), &format!("crafted-gravsoft-{class}"), area);
     }
     for _ in 0..(if thorough { 2000 } else { 240 }) {
-        let (bytes, class) = crafted_ntv2(&mut g.rng);
-        push_damaged(g, "ntv2", &bytes, &format!("crafted-ntv2-{class}"), (-20.0, 25.0, -40.0, 45.0));
+        let (bytes, class, area) = crafted_ntv2(&mut g.rng);
+        let area = if g.rng.chance(1, 4) { (-20.0, 25.0, -40.0, 45.0) } else { area };
+        push_damaged(g, "ntv2", &bytes, &format!("crafted-ntv2-{class}"), area);
     }
     // the ASCII twins of the shipped NTv2 files
     for name in ["5458", "5458_with_subgrid"] {
